@@ -154,7 +154,7 @@ func (rg *rootGeneratorPipeline) worker(ctx context.Context, wg *sync.WaitGroup,
 			var (
 				sc      = bufio.NewScanner(strings.NewReader(block))
 				root    *Node
-				nodes   = newStack()
+				nodes   *stack
 				counter = newCounter()
 			)
 			for sc.Scan() {
@@ -170,6 +170,7 @@ func (rg *rootGeneratorPipeline) worker(ctx context.Context, wg *sync.WaitGroup,
 				}
 				if currentNode.isRoot() {
 					root = currentNode
+					nodes = newStack()
 					nodes.push(currentNode)
 					continue
 				}
@@ -187,6 +188,10 @@ func (rg *rootGeneratorPipeline) worker(ctx context.Context, wg *sync.WaitGroup,
 			if err := sc.Err(); err != nil {
 				errc <- err
 				return
+			}
+			if root == nil {
+				// blank lines only (e.g. before the first root): nothing to send
+				continue
 			}
 			verifPoint("gen.send")
 			select {
